@@ -38,7 +38,8 @@ RULE = (
     "Hypothesis draws a configuration: MDO scenario (SLSQP, L-BFGS-B, NLOPT_COBYLA; normalised design space or not) "
     "or DOE scenario (LHS, PYDOE_FULLFACT, CustomDOE incl. repeated samples; with or without Jacobians), "
     "DisciplinaryOpt over one harness discipline (x -> f, g) or a chain of two (x -> f, y; x, y -> g), 1-2 design "
-    "variables, polynomial objective and one inequality constraint (none for L-BFGS-B), budget 5-15, backup policy "
+    "variables, polynomial objective (minimised, one case in four maximised) and one inequality constraint (none for "
+    "L-BFGS-B), budget 5-15, backup policy "
     "(each function call / each iteration / both), initial file state (absent / prefix left by an earlier crashed "
     "run and loaded / such a prefix erased with erase=True), restart with reset_iteration_counters False or True. "
     "A reference child records K executions and a database snapshot after every store; EVERY crash point k=1..K "
@@ -61,13 +62,16 @@ ASSUMPTIONS = [
     "reset_iteration_counters=False (the documented way to complete a run from a backup); with the default "
     "reset_iteration_counters=True the uninterrupted history must be a prefix of the restarted one",
     "sequential execution (n_processes=1), deterministic algorithms (LHS with an explicit seed)",
+    "enable_progress_bar=False in every run: tqdm's process-shared lock and monitor thread must not be inherited by "
+    "forked children that are killed (a harness precaution, the backup does not depend on the bar)",
+    "the best loaded point is taken among backup entries holding the objective and the constraint; inequality "
+    "tolerance as set by the algorithm (1e-4); violation measures compared with a relative margin of 1e-9",
 ]
 
 CRASH_CODE = 17
 CHILD_TIMEOUT_S = 120
 MDO_ALGOS = ["SLSQP", "L-BFGS-B", "NLOPT_COBYLA"]
 DOE_ALGOS = ["LHS", "PYDOE_FULLFACT", "CustomDOE"]
-GRADIENT_ALGOS = {"SLSQP", "L-BFGS-B"}
 BOUNDS = [(-3.0, 4.0), (-2.5, 1.5), (0.5, 5.0)]
 GRID = 8  # start points / custom samples are lb + (ub - lb) * i / GRID
 
@@ -123,10 +127,6 @@ def _grid_point(p, idx):
 
 def has_constraint(p) -> bool:
     return p["algo"] != "L-BFGS-B"
-
-
-def wants_gradients(p) -> bool:
-    return p["algo"] in GRADIENT_ALGOS or (p["kind"] == "doe" and p.get("eval_jac", False))
 
 
 def make_disciplines(p, hook):
@@ -548,6 +548,7 @@ def _case(p, ctx, work, workers):
             "maximize" if p.get("maximize") else "minimize")
     if n_crash == 0:
         ctx.cls("loaded_prefix_leaves_nothing_to_execute")
+        ctx.evaluations -= 1  # no crash point in this configuration
         return
     if p["kind"] == "mdo" and n_full < p["budget"]:
         ctx.cls("mdo_converged_before_budget")
@@ -681,7 +682,7 @@ def _case(p, ctx, work, workers):
 # one oracle (one Hypothesis stream, one bucket of failures) per algorithm: every run covers all six
 ORACLES = {f"crash_{algo}": case_crash for algo in [*MDO_ALGOS, *DOE_ALGOS]}
 QUICK = {"SLSQP": 6, "L-BFGS-B": 4, "NLOPT_COBYLA": 5, "LHS": 4, "PYDOE_FULLFACT": 4, "CustomDOE": 4}
-THOROUGH = {"SLSQP": 10, "L-BFGS-B": 7, "NLOPT_COBYLA": 8, "LHS": 6, "PYDOE_FULLFACT": 6, "CustomDOE": 7}
+THOROUGH = {"SLSQP": 8, "L-BFGS-B": 5, "NLOPT_COBYLA": 6, "LHS": 5, "PYDOE_FULLFACT": 4, "CustomDOE": 5}
 
 
 def run(ctx):
